@@ -3,7 +3,7 @@ SPEC = dict(
     title='Measured fan limits follow the RPM curve; configured limits always win',
     props_file='Props/C13.v', props_mod='Props.C13',
     proof_files=['Proofs/Limits.v', 'Drv/Limits.v', 'Proofs/LimitsBridge.v'],
-    tie_vo=['Proofs/LimitsBridge.vo'],
+    tie_vo=['Proofs/LimitsBridge.vo', 'Proofs/LeafTie2_ComputePwmBoundaries.vo', 'Proofs/LeafTie2_HwMonGetMinPwm.vo', 'Proofs/LeafTie2_HwMonGetStartPwm.vo', 'Proofs/LeafTie2_HwMonGetMaxPwm.vo', 'Proofs/LeafTie2_HwMonSetMinPwm.vo', 'Proofs/LeafTie2_HwMonSetStartPwm.vo', 'Proofs/LeafTie2_HwMonSetMaxPwm.vo'],
     drivers=[dict(name='limits', drv_mod='Drv.Limits', drv_file='Drv/Limits.v', shard=150,
                   args={'quick': ['n=900'], 'thorough': ['n=30000']},
                   timeout={'quick': 600, 'thorough': 3000})],
